@@ -55,14 +55,8 @@ def runOk (st : Start) (ops : List Op) (obs : List Nat) : Bool := walk st none 0
 
 /-! ### concurrent histories (`c07.hist`) -/
 
-/-- one completed call of a concurrent history -/
-structure Call where
-  g : Nat          -- goroutine
-  op : Op
-  before : Nat     -- global ticket taken just before the call
-  after : Nat      -- global ticket taken just after the call returned
-  res : Nat        -- what the call returned
-  deriving DecidableEq, Repr, Inhabited
+/-- one completed call of a concurrent history (defined with the model) -/
+abbrev Call := Model.SeqCall
 
 /-- the results are those of the sequential run of the calls in this order -/
 def replayOk (s : SeqState) : List Call → Bool
